@@ -96,6 +96,8 @@ def prefix_reward(cfg, p, t):
     """Mode B: concrete reward of round t of the prefix - an objective-like function of the (concrete)
     point plus deterministic dyadic pseudo-noise, so that the tree grows the way it does in real use"""
     spec = cfg["prefix"]
+    if not isinstance(p, (list, tuple)) or not p or isinstance(p[0], Sym) or p[0] is None:
+        return 0.0  # the code under test returned no usable point: the observers report it, the run goes on
     x = float(p[0])
     lo, hi = PREFIX_BOX
     u = (x - lo) / (hi - lo)
